@@ -41,8 +41,11 @@ def run(ctx):
     import r_state
     ctx.run_rule("LZ", r_state.rule_LZ, cfgs)
     ctx.run_rule("ZP", r_state.rule_ZP, cfgs)
+    import r_secrecy
+    ctx.run_rule("ZL", r_secrecy.rule_ZL, [c for c in cfgs if c.endswith("-full")])
     import r_globals as _rg
     ctx.run_rule("W1", _rg.rule_W1, cfgs)
+    ctx.run_rule("AB", _rg.rule_AB, cfgs)
     # the child CVs are read back as one contiguous prefix of cv_array: the split point must be degree*OUT_LEN
     ctx.run_rule("G3", r_globals.rule_G3, cfgs)
     ctx.run_rule("R1p", r_round.rule_R1_portable, [c for c in cfgs if c in ("asm-full", "portable1")])
